@@ -1,16 +1,20 @@
 """C01 — the interpreter returns the denotation of the program.
 
-Lean: model of interpreter<i_mep> / src_interpreter (memo keyed by locus, ip save/restore, invalidation
-per run, exceptions) and proofs `interp_eq_denote`, `run_history_indep`, `denote_eq_tree`,
-`intron_indep`, `needs_only_asked`, `in_bounds` … for every well-formed genome, example and initial
-interpreter state (Vita/C01/Props.lean).  Primitive bodies: generated (C13/C14 translators) + a few
-hand-written terminals.
+Lean: the member functions of interpreter<i_mep> / core_interpreter / symbol_params / src_interpreter<i_mep>,
+symbol::penalty, comparison_function_penalty and gene::locus_of_argument are EXTRACTED from the current
+sources (tools/translate_interp.py -> Vita/C01/GenInterp.lean, a small statement language with one semantics,
+Vita/C01/Lang.lean); Vita/C01/Bridge.lean proves the interpreter made of the extracted bodies equal to the
+hand-written model, and Vita/C01/Props.lean proves `gen_interp_eq_denote`, `gen_run_history_indep`,
+`gen_layout_indep`, `gen_intron_indep`, `gen_in_bounds`, `team_members_eq_denote`, `penalty_spec` … for every
+well-formed genome, example and state of the object.  Primitive bodies: all generated (C13 / C14 translators,
+tools/translate_prims01.py for bool.h, int.h `number`, variable.h, constant.h).
 
-Tie: differential.  The harness builds real individuals with vita's own constructor / mutation /
-crossover / get_block over five symbol sets, runs vita's interpreters (fresh, one object reused
-over a sequence of examples, no example, regression lambda) and its own independent recursive tree
-evaluation; the compiled Lean driver runs the model interpreter (with the same object history, plus
-model-only `stale` states) and `denote` on the serialised programs.  All answers must agree bit for bit.
+Tie: translators + differential.  The harness builds real individuals with vita's own constructor / mutation /
+crossover / get_block / teams over five symbol sets plus engineered layouts, introns, program swaps behind a
+live object, penalty collisions, long reuse and wide examples; runs vita's interpreters (fresh, one object
+reused, no example, regression lambda, team lambda, penalty()) and its own independent recursive tree
+evaluation; the compiled Lean driver runs the EXTRACTED interpreter (same object history, plus model-only `stale`
+states) and `denote`.  All answers must agree bit for bit.
 """
 import concurrent.futures as cf
 import hashlib
@@ -18,12 +22,15 @@ import zlib
 import json
 import os
 import sys
+import time
 
 from vlib import common as C
 
 sys.path.insert(0, os.path.join(C.ROOT, "tools"))
 import translate_real  # noqa: E402
 import translate_int  # noqa: E402
+import translate_interp  # noqa: E402
+import translate_prims01  # noqa: E402
 from cxx2lean import Refuse  # noqa: E402
 
 SETS = ["real", "int", "str2", "typed3", "illtyped"]
@@ -44,40 +51,59 @@ def same(a, b):
 
 
 def parse_transcript(line):
-    """-> list of programs: (P-line, [(kind, example tokens, vita, oracle, repeat, bad)]);
-    kind F/S/0/L; repeat = 1, or n for an `RR<k> n …` item (the example run n times in a row on the
-    object of kind k, `bad` of them with an answer different from the oracle's)"""
-    progs = []
+    """-> (chains, extras).  A chain is a list of programs that share ONE history of interpreter objects:
+    [(P-line, reprog, [items])] where reprog says that the program was put behind the same object as the
+    preceding one (`Q`), and an item is (op, kind, example tokens, vita, oracle, repeat, bad):
+    op R = run (repeat n for `RR<k> n …`, `bad` of the n answers differing from the oracle's), N = penalty();
+    kind F/S/0/L = which object.  extras: `E` (two answers of vita that must be equal) and `T` (team) items."""
+    chains, extras = [], []
     for item in line.split(" ;; "):
         t = item.split()
         if not t:
             continue
         if t[0] == "P":
-            progs.append((item, []))
-        elif t[0][0] == "R" and progs:
+            chains.append([(item, False, [])])
+        elif t[0] == "Q" and chains:
+            chains[-1].append(("P" + item[1:], True, []))
+        elif t[0] in ("E", "T"):
+            eq = t.index("=")
+            extras.append((t[0], t[1] if t[0] == "E" else "team", t[2:eq] if t[0] == "E" else t[1:eq], t[eq + 1], t[eq + 2]))
+        elif t[0][0] == "N" and chains:
+            chains[-1][-1][2].append(("N", t[0][1:], [], t[2], t[3], 1, 0))
+        elif t[0][0] == "R" and chains:
             eq = t.index("=")
             if t[0].startswith("RR"):
-                progs[-1][1].append((t[0][2:], t[2:eq], t[eq + 1], t[eq + 2], int(t[1]), int(t[eq + 3].split("=")[1])))
+                chains[-1][-1][2].append(("R", t[0][2:], t[2:eq], t[eq + 1], t[eq + 2], int(t[1]), int(t[eq + 3].split("=")[1])))
             else:
-                progs[-1][1].append((t[0][1:], t[1:eq], t[eq + 1], t[eq + 2], 1, 0))
-    return progs
+                chains[-1][-1][2].append(("R", t[0][1:], t[1:eq], t[eq + 1], t[eq + 2], 1, 0))
+    return chains, extras
 
 
-def driver_lines(prog, runs, rng):
-    """the same object histories for the model: F = new object per run, S / L = one object over the
-    consecutive runs of that kind, 0 = new object, no example; `stale` (model only) at random."""
-    out = ["prog " + prog[2:]]
-    idx = []
+def driver_lines(chain, rng):
+    """the same object histories for the model: F / 0 = new object per run, S / L = one object over the
+    consecutive items of that kind (across `reprog`), `stale` (model only) at random.
+    -> lines, [(program index in the chain, index of its `prog` answer, [answer index per item])]"""
+    out, where = [], []
     prev = None
-    for (kind, ex, _, _, rep, _) in runs:
-        if kind in ("F", "0") or kind != prev:
-            out.append("new")
-        if rng.below(4) == 0:
-            out.append("stale")
-        out.append(("run " if rep == 1 else "rep %d " % rep) + " ".join(ex))
-        idx.append(len(out) - 1)
-        prev = kind
-    return out, idx
+    for (prog, reprog, items) in chain:
+        out.append(("reprog " if reprog else "prog ") + prog[2:])
+        head = len(out) - 1
+        if not reprog:
+            prev = None
+        idx = []
+        for (op, kind, ex, _, _, rep, _) in items:
+            if kind in ("F", "0") or kind != prev:
+                out.append("new")
+            if rng.below(4) == 0:
+                out.append("stale")
+            if op == "N":
+                out.append("pen")
+            else:
+                out.append("run0" if kind == "0" else ("run " if rep == 1 else "rep %d " % rep) + " ".join(ex))
+            idx.append(len(out) - 1)
+            prev = kind
+        where.append((head, idx))
+    return out, where
 
 
 def run_shard(lines):
@@ -87,6 +113,13 @@ def run_shard(lines):
 def run(chk, replay=None):
     rng = C.SplitMix(chk.seed)
     broken = []
+    phase = {}
+    t_phase = [time.time()]
+
+    def lap(name):
+        now = time.time()
+        phase[name] = round(phase.get(name, 0.0) + now - t_phase[0], 2)
+        t_phase[0] = now
     # ---- regenerate the primitive bodies, build, prove -------------------------------------------
     try:
         names, ch = translate_real.emit(os.path.join(C.LEAN, "Vita", "C13", "Gen.lean"))
@@ -96,6 +129,23 @@ def run(chk, replay=None):
         chk.cov["gen_changed_vs_committed"] = bool(ch or ch2)
     except Refuse as e:
         broken.append("a translator refuses the current primitive sources: %s" % e)
+    try:
+        pnames, ch4 = translate_prims01.emit(os.path.join(C.LEAN, "Vita", "C01", "GenPrims.lean"))
+        chk.cov["translated_terminals_boolean"] = pnames
+        chk.cov["genprims_changed_vs_committed"] = bool(ch4)
+    except Refuse as e:
+        broken.append("tools/translate_prims01.py refuses the current bool.h / int.h number / variable.h / constant.h: %s" % e)
+    # ---- the member functions of the interpreters -> statement language (GenInterp.lean) ------------
+    try:
+        res, ch3 = translate_interp.emit(os.path.join(C.LEAN, "Vita", "C01", "GenInterp.lean"),
+                                         cache=os.path.join(C.ROOT, "build", "translate_interp.cache.json"))
+        chk.cov["translated_interp"] = list(translate_interp.CODE_KEYS)
+        chk.cov["shipped_primitive_classes"] = len(res["shipped"])
+        chk.cov["geninterp_changed_vs_committed"] = bool(ch3)
+    except Refuse as e:
+        broken.append("tools/translate_interp.py refuses the current interpreter sources (a member function "
+                      "has a shape outside the statement language): %s" % e)
+    lap("translators")
     ok, out = C.lake_build(["c01_driver"])
     drv_ok = ok
     if not ok:
@@ -104,10 +154,12 @@ def run(chk, replay=None):
     if not ok:
         broken.append("theorems of Vita.C01.Props no longer check: " + msg)
 
+    lap("lean_build_and_audit")
     wire_h = os.path.join(C.ROOT, "harness", "c01_wire.h")
     wh = hashlib.sha256(open(wire_h, "rb").read()).hexdigest()[:16]
     exe = C.build_harness("c01_interp", "asan", extra_flags=["-DWIRE_H_HASH=" + wh])
 
+    lap("vita_and_harness_build")
     # ---- scenarios -------------------------------------------------------------------------------
     quick = chk.tier == "quick"
     reqs = []
@@ -124,7 +176,7 @@ def run(chk, replay=None):
         LSETS = ["real", "int", "str2", "typed3"]
         for k in range(48 if quick else 400):
             reqs.append(f"long {LSETS[k % 4]} {rng.next() % 1000000007} 9")
-        for k in range(0 if quick else 24):
+        for k in range(0 if quick else 16):
             reqs.append(f"long {LSETS[k % 4]} {rng.next() % 1000000007} 17")
         # examples with 70000 features, variables with indices around 2^8 and 2^16
         for k in range(40 if quick else 800):
@@ -142,18 +194,33 @@ def run(chk, replay=None):
             reqs.append(f"scn {st} {rng.next() % 1000000007} {rows} {patch} {steps} {nex}")
         for k in range(60 if quick else 600):
             reqs.append(f"chain {rng.next() % 1000000007} {rng.between(2, 17)} {rng.between(2, 4)}")
+        # engineered cases for the last sentence of the property and for penalty() / teams.  They come AFTER the
+        # families above so that the random stream of those (and hence their programs) is what it always was.
+        for k in range(160 if quick else 3000):       # penalty(): equalities among the argument indices
+            reqs.append(f"pen {LSETS[k % 4]} {rng.next() % 1000000007}")
+        for k in range(60 if quick else 1500):        # teams: every member on its own reused object
+            reqs.append(f"team {('real', 'int')[k % 2]} {rng.next() % 1000000007} {rng.between(3, 25)} "
+                        f"{rng.between(1, 6)} {rng.between(2, 4)}")
+        for k in range(150 if quick else 3000):       # same tree, another layout (shared genes split / kept)
+            reqs.append(f"layout {LSETS[k % 4]} {rng.next() % 1000000007} {rng.between(3, 33)} {rng.between(2, 4)}")
+        for k in range(150 if quick else 3000):       # same active code, other introns
+            reqs.append(f"intron {LSETS[k % 4]} {rng.next() % 1000000007} {rng.between(3, 33)} {rng.between(2, 4)}")
+        for k in range(150 if quick else 3000):       # other programs behind the same interpreter object
+            reqs.append(f"swap {SETS[k % 5]} {rng.next() % 1000000007} {rng.between(3, 33)} {rng.between(2, 4)}")
 
     state = {"ndis": 0, "programs": 0}
     found = []     # failing (program, example) pairs; the smallest programs are reported first
 
     def process(reqs):
+        t_phase[0] = time.time()
         answers, deaths = C.run_lines(exe, reqs, timeout=3000)
+        lap("harness_runs")
         for idx, rc, se in deaths:
             chk.violation("harness died (rc=%d) on request `%s`\n%s" % (rc, reqs[idx], se[-2500:]),
                           {"request": reqs[idx], "stderr": se[-2500:]}, tags={"request": reqs[idx], "kind": "died"})
 
         # ---- compare vita with the harness' own oracle (the property itself), collect the model's work --
-        work = []      # (request, prog line, runs, driver lines, run indices)
+        work = []      # (request, chain, driver lines, where)
         for q, a in zip(reqs, answers):
             if a.startswith("died") or a.startswith("skipped"):
                 continue
@@ -161,84 +228,127 @@ def run(chk, replay=None):
                 broken.append("harness rejects request `%s`: %s" % (q, a))
                 continue
             qt = q.split()
-            chk.count("set:" + qt[1] if qt[0] == "scn" else "long:" + qt[1] if qt[0] == "long" else "set:" + qt[0])
-            for prog, runs in parse_transcript(a):
-                pt = prog.split()
-                chk.count("programs")
-                state["programs"] += 1
-                chk.count("rows:%s" % ("2-8" if int(pt[1]) < 9 else "9-24" if int(pt[1]) < 25 else "25-64"))
-                chk.count("cats:" + pt[2])
-                for (kind, ex, vita, orc, rep, bad) in runs:
-                    chk.count("run:" + kind, rep)
-                    chk.count("result:" + vita[0], rep)
-                    if rep > 1:
-                        chk.count("runs_inside_long_reuse", rep)
-                        chk.evaluations += rep - 1
-                    if bad:
-                        found.append((len(prog.split(" ; ")), len(ex), q, prog, kind, ex,
-                                      "%s (%d of %d consecutive runs of this example differ)" % (vita, bad, rep), orc))
-                    elif orc == "skip":
-                        chk.count("oracle_skipped_big_tree")
-                    elif vita != orc:
-                        found.append((len(prog.split(" ; ")), len(ex), q, prog, kind, ex, vita, orc))
-                dl, idx = driver_lines(prog, runs, rng)
-                work.append((q, prog, runs, dl, idx))
+            chk.count("set:" + qt[1] if qt[0] == "scn" else qt[0] + ":" + qt[1] if qt[0] in
+                      ("long", "pen", "team", "layout", "intron", "swap") else "set:" + qt[0])
+            chains, extras = parse_transcript(a)
+            for (what, tag, ex, va, vb) in extras:
+                chk.count("equal_pair:" + tag)
+                chk.evaluations += 1
+                if va != vb:
+                    lines = [c[0][0] for c in chains][:2]
+                    if what == "T":
+                        msg = (f"reg_lambda_f<team<i_mep>> returned {va}, the running mean of the recursive evaluations "
+                               f"of the members' trees is {vb}")
+                    elif tag == "penalty":
+                        msg = (f"two equal individuals (operator==) have different penalty(): {va[1:]} when built "
+                               f"directly, {vb[1:]} when the start gene's storage held another gene before")
+                    else:
+                        msg = (f"two programs with the same {'expression tree in different layouts' if tag == 'layout' else 'active code and different inactive genes'} "
+                               f"return {va} and {vb}")
+                    found.append((len(lines[0].split(" ; ")) if lines else 0, len(ex), q, " || ".join(lines), tag, ex,
+                                  va, vb, msg))
+            for chain in chains:
+                for (prog, reprog, items) in chain:
+                    pt = prog.split()
+                    chk.count("programs")
+                    if reprog:
+                        chk.count("programs_swapped_behind_one_object")
+                    state["programs"] += 1
+                    chk.count("rows:%s" % ("2-8" if int(pt[1]) < 9 else "9-24" if int(pt[1]) < 25 else "25-64"))
+                    chk.count("cats:" + pt[2])
+                    for (op, kind, ex, vita, orc, rep, bad) in items:
+                        if op == "N":
+                            chk.count("penalty:" + kind)
+                            chk.count("penalty_value:" + vita)
+                            chk.evaluations += 1
+                            if vita != orc:
+                                found.append((len(prog.split(" ; ")), 0, q, prog, "penalty " + kind, [], vita, orc,
+                                              f"penalty() (object {kind}) returned {vita}, the documented penalty of the "
+                                              f"start gene (from its own arguments) is {orc}"))
+                            continue
+                        chk.count("run:" + kind, rep)
+                        chk.count("result:" + vita[0], rep)
+                        if rep > 1:
+                            chk.count("runs_inside_long_reuse", rep)
+                            chk.evaluations += rep - 1
+                        if bad:
+                            found.append((len(prog.split(" ; ")), len(ex), q, prog, kind, ex,
+                                          "%s (%d of %d consecutive runs of this example differ)" % (vita, bad, rep), orc, None))
+                        elif orc == "skip":
+                            chk.count("oracle_skipped_big_tree")
+                        elif vita != orc:
+                            found.append((len(prog.split(" ; ")), len(ex), q, prog, kind, ex, vita, orc, None))
+                dl, where = driver_lines(chain, rng)
+                work.append((q, chain, dl, where))
 
-        # ---- the model ---------------------------------------------------------------------------------
+        lap("python_compare_with_oracle")
+        # ---- the model (the interpreter extracted from the sources, run by the Lean semantics) -------------
         if drv_ok and work:
             nsh = 8
             shards = [[] for _ in range(nsh)]
             for k, w in enumerate(work):
                 shards[k % nsh].append(w)
             with cf.ThreadPoolExecutor(nsh) as ex_:
-                outs = list(ex_.map(lambda sh: run_shard([l for w in sh for l in w[3]]) if sh else [], shards))
+                outs = list(ex_.map(lambda sh: run_shard([l for w in sh for l in w[2]]) if sh else [], shards))
+            lap("lean_driver_runs")
             for sh, out in zip(shards, outs):
                 pos = 0
-                for (q, prog, runs, dl, idx) in sh:
+                for (q, chain, dl, where) in sh:
                     ans = out[pos:pos + len(dl)]
                     pos += len(dl)
-                    head = ans[0].split() if ans else ["missing"]
-                    if head[0] != "ok":
-                        broken.append("model rejects program `%s…` (%s) of request `%s`" % (prog[:200], ans[:1], q))
-                        continue
-                    size = int(head[2].split("=")[1]) if len(head) > 3 else 0
-                    reach = int(head[3].split("=")[1]) if len(head) > 3 else 0
-                    chk.count("tree_nodes:%s" % ("1" if size <= 1 else "2-9" if size < 10 else "10-99" if size < 100 else
-                                                 "100-9999" if size < 10000 else ">=10000"))
-                    if size > reach:
-                        chk.count("programs_with_shared_genes")
-                    for (kind, ex, _, _, _, _) in runs:
-                        chk.seen((prog, kind, tuple(ex)), nontrivial=size > 1)
-                    if "wf=1" not in head:
-                        chk.count("model_says_not_wf")
-                        broken.append("a program built by vita fails the model's WF check: `%s…` request `%s`" % (prog[:200], q))
-                    for (kind, ex, vita, orc, rep, bad), j in zip(runs, idx):
-                        m = ans[j].split() if j < len(ans) else ["missing"]
-                        if len(m) != (3 if rep == 1 else 4) or (rep > 1 and m[3] != "same=1"):
-                            broken.append("model answer malformed / not constant over a repeated example: %r on `%s`"
-                                          % (ans[j:j + 1], dl[j][:200]))
-                            continue
-                        mi, md, mok = m[:3]
-                        if dl[j - 1] == "stale":
-                            chk.count("model_run_from_stale_state")
-                        if md == "skip":
-                            chk.count("denote_skipped_big_tree")
-                        e1, z1 = same(mi, vita)
-                        e2, z2 = (True, False) if md == "skip" else same(md, vita)
-                        if z1 or z2:
-                            chk.count("zero_sign_only_difference")
-                        if mok != "ok=1":
-                            chk.count("model_out_of_bounds")
-                            broken.append("the model interpreter left the genome on `%s…`" % prog[:200])
-                        if not (e1 and e2):
-                            state["ndis"] += 1
-                            if state["ndis"] <= 3:
-                                broken.append(
-                                    f"model and code disagree (mode {kind}): vita {vita}, tree oracle {orc}, model interpreter "
-                                    f"{mi}, denote {md}; example [{' '.join(ex)}]; program `{prog[:300]}…`; request `{q}`")
-                    if len(chk.cov["samples"]) < 6 and runs and (len(work) < 12 or zlib.crc32(prog.encode()) % 97 == 0):
-                        chk.sample({"program": prog[:400], "run": runs[0][0], "example": runs[0][1], "vita": runs[0][2],
-                                    "tree_oracle": runs[0][3], "model": ans[idx[0]] if idx and idx[0] < len(ans) else None})
+                    for (prog, reprog, items), (hd, idx) in zip(chain, where):
+                        head = ans[hd].split() if hd < len(ans) else ["missing"]
+                        if head[0] != "ok":
+                            broken.append("model rejects program `%s…` (%s) of request `%s`" % (prog[:200], ans[hd:hd + 1], q))
+                            break
+                        size = int(head[2].split("=")[1]) if len(head) > 3 else 0
+                        reach = int(head[3].split("=")[1]) if len(head) > 3 else 0
+                        chk.count("tree_nodes:%s" % ("1" if size <= 1 else "2-9" if size < 10 else "10-99" if size < 100 else
+                                                     "100-9999" if size < 10000 else ">=10000"))
+                        if size > reach:
+                            chk.count("programs_with_shared_genes")
+                        for (op, kind, ex, _, _, _, _) in items:
+                            chk.seen((prog, op, kind, tuple(ex)), nontrivial=size > 1)
+                        if "wf=1" not in head:
+                            chk.count("model_says_not_wf")
+                            broken.append("a program built by vita fails the model's WF check: `%s…` request `%s`" % (prog[:200], q))
+                        for (op, kind, ex, vita, orc, rep, bad), j in zip(items, idx):
+                            m = ans[j].split() if j < len(ans) else ["missing"]
+                            if len(m) != (3 if rep == 1 else 4) or (rep > 1 and m[3] != "same=1"):
+                                broken.append("model answer malformed / not constant over a repeated example: %r on `%s`"
+                                              % (ans[j:j + 1], dl[j][:200]))
+                                continue
+                            mi, md, mok = m[:3]
+                            if dl[j - 1] == "stale":
+                                chk.count("model_run_from_stale_state")
+                            if mok != "ok=1":
+                                chk.count("model_out_of_bounds")
+                                broken.append("the extracted interpreter leaves the genome / reads beyond a gene's arguments "
+                                              "(%s) on `%s…`" % (dl[j][:40], prog[:200]))
+                            if op == "N":
+                                if not (mi == md == vita):
+                                    state["ndis"] += 1
+                                    if state["ndis"] <= 3:
+                                        broken.append(f"model and code disagree on penalty(): vita {vita}, documented {orc}, extracted "
+                                                      f"interpreter {mi}, reference {md}; program `{prog[:300]}…`; request `{q}`")
+                                continue
+                            if md == "skip":
+                                chk.count("denote_skipped_big_tree")
+                            e1, z1 = same(mi, vita)
+                            e2, z2 = (True, False) if md == "skip" else same(md, vita)
+                            if z1 or z2:
+                                chk.count("zero_sign_only_difference")
+                            if not (e1 and e2):
+                                state["ndis"] += 1
+                                if state["ndis"] <= 3:
+                                    broken.append(
+                                        f"model and code disagree (mode {kind}): vita {vita}, tree oracle {orc}, extracted interpreter "
+                                        f"{mi}, denote {md}; example [{' '.join(ex)}]; program `{prog[:300]}…`; request `{q}`")
+                        if len(chk.cov["samples"]) < 6 and items and (len(work) < 12 or zlib.crc32(prog.encode()) % 97 == 0):
+                            chk.sample({"program": prog[:400], "run": items[0][1], "example": items[0][2], "vita": items[0][3],
+                                        "tree_oracle": items[0][4], "model": ans[idx[0]] if idx and idx[0] < len(ans) else None})
+        lap("python_compare_with_model")
+        state["work"] = state.get("work", 0) + len(work)
 
     all_reqs = reqs
     for b0 in range(0, len(all_reqs), 3000):
@@ -246,19 +356,20 @@ def run(chk, replay=None):
     ndis = state["ndis"]
     found.sort(key=lambda t: (t[0], t[1], t[3]))
     chk.cov["failing_runs"] = len(found)
-    for (_, _, q, prog, kind, ex, vita, orc) in found[:8]:
+    for (_, _, q, prog, kind, ex, vita, orc, msg) in found[:8]:
         chk.violation(
-            f"vita's interpreter (mode {kind}) returned {vita}, the recursive evaluation of the active "
-            f"expression tree gives {orc}, on example [{' '.join(ex)}] of program `{prog[:300]}…` "
+            (msg or f"vita's interpreter (mode {kind}) returned {vita}, the recursive evaluation of the active "
+             f"expression tree gives {orc},") + f" on example [{' '.join(ex)}] of program `{prog[:300]}…` "
             f"(smallest of {len(found)} failing runs)",
             {"request": q, "program": prog, "kind": kind, "example": ex, "vita": vita, "tree": orc},
             tags={"kind": kind, "set": " ".join(q.split()[:2]), "request": q})
     chk.cov["model_vs_code_disagreements"] = ndis
+    chk.cov["phase_seconds"] = phase
 
     if broken and not [v for v in chk.violations if not v[2]]:
         for b in broken[:4]:
             chk.violation(b, {"broken": b, "searched": "%d interpreter runs on %d programs compared with the independent "
-                              "recursive tree evaluation: no failing input" % (chk.evaluations, len(work))}, no_input=True)
+                              "recursive tree evaluation: no failing input" % (chk.evaluations, state.get("work", 0))}, no_input=True)
     elif broken:
         chk.notes += broken[:6]
     return chk.finish(
@@ -266,11 +377,19 @@ def run(chk, replay=None):
         checker_cmd="lake build Vita.C01.Props && lake env lean <#print axioms for every theorem>",
         rule="programs: vita's random constructor over 5 symbol sets (real / integer / real+string / 3 strongly typed "
              "categories / ill-typed), 2..64 rows, patch 1..6, followed by mutation, crossover, get_block; hand-built "
-             "maximal-sharing chains; each run fresh, on one reused src_interpreter (forwards and backwards), without "
-             "example and through reg_lambda_f, examples from boundary tables; evaluations = interpreter runs, distinct = "
-             "distinct (program, mode, example) whose expression tree has more than one node; every run is compared with the harness' memo-free recursive tree "
-             "evaluation, with the Lean model interpreter driven through the same object history (and from model-only "
-             "stale states) and with `denote`",
-        trusted=["Lean 4.33 kernel", "hand-written model Vita/C01/Model.lean of interpreter.cc / interpreter.tcc",
-                 "tools/translate_real.py, translate_int.py (primitive bodies), Vita/C01/Prims.lean (progOfE, terminals)",
-                 "differential harness harness/c01_interp.cc, g++ 12 ASan/UBSan"])
+             "maximal-sharing chains; long reuse of one object (gaps 2^k±1); 70000-feature examples; engineered: the same tree "
+             "in another layout (genes duplicated / shared at random), the same active code with other introns, other programs "
+             "assigned behind one live src_interpreter, comparison functions with colliding argument indices built directly and "
+             "over storage of another arity, teams of 1..5 members through reg_lambda_f<team>; each run fresh, on one reused "
+             "src_interpreter (forwards, penalty(), backwards), without example and through reg_lambda_f, examples from boundary "
+             "tables; evaluations = interpreter runs + penalty() calls + equal-pair comparisons, distinct = distinct (program, "
+             "operation, object kind, example) whose expression tree has more than one node; every run is compared with the "
+             "harness' memo-free recursive tree evaluation (penalty: the documented rule on the gene's own arguments), with the "
+             "interpreter EXTRACTED from the sources executed by the Lean semantics through the same object history (and from "
+             "model-only stale states) and with `denote`",
+        trusted=["Lean 4.33 kernel", "semantics of the statement language Vita/C01/Lang.lean and the dispatch / recursion wiring "
+                 "Vita/C01/ModelG.lean (the hand-written model Vita/C01/Model.lean is proved equal to the extracted interpreter, "
+                 "not trusted)",
+                 "tools/translate_interp.py, translate_prims01.py, translate_real.py, translate_int.py (syntax-only translators), "
+                 "Vita/C01/Prims.lean (progOfE)",
+                 "differential harness harness/c01_interp.cc and its oracles, g++ 12 ASan/UBSan"])
